@@ -116,6 +116,8 @@ def one_shape(col, n, edges, rng, variants, sample=False):
         cp2 = S.cp_spec(sp2)
         check_table(col, "after_config_from_dict", dict(d.graph_ids.compound_priority), cp2, ids, allset, rp)
         orders.append(run_order(col, "after_config_from_dict", d, ids, g, cp2, allset, rp))
+    if "debug" in variants and n >= 2:
+        debug_variant(col, n, edges, prios, rng, rp)
     h = "%d:%s:%s" % (n, sorted(edges), prios)
     if n >= 2:
         col.hashes.add(S.spec_hash({"h": h}))
@@ -124,6 +126,52 @@ def one_shape(col, n, edges, rng, variants, sample=False):
                     "tawazi_table": {k: v for k, v in d.graph_ids.compound_priority.items() if k in ids} if "config" not in variants else "reconfigured",
                     "orders_observed": orders[:3]})
     return ok
+
+
+def debug_variant(col, n, edges, prios, rng, rp):
+    """Debug nodes re-attached to a sub-graph run (RUN_DEBUG_NODES on) must keep their compound priority too."""
+    from tawazi.config import cfg
+
+    g0 = nx.DiGraph()
+    g0.add_nodes_from(range(n))
+    g0.add_edges_from(edges)
+    debug = set()
+    for i in range(n):
+        if any(j in debug for j in g0.predecessors(i)) or rng.random() < 0.35:
+            debug.add(i)
+    if not debug or len(debug) == n:
+        return
+    sp = mk_spec(n, edges, prios)
+    for i in debug:
+        sp["fns"]["f%d" % i]["debug"] = True
+    ids = S.node_ids(sp)
+    cp = S.cp_spec(sp)
+    g = S.site_graph(sp)
+    old = cfg.RUN_DEBUG_NODES
+    cfg.RUN_DEBUG_NODES = True
+    try:
+        d, _e, _p = S.build_tawazi(sp)
+        nondbg = [i for i in range(n) if i not in debug]
+        t = rng.choice(nondbg)
+        ex = d.executor(target_nodes=[ids[t]])
+        present = {ids.index(x) for x in ex.graph.nodes if x in ids}
+        col.counters["cp_debug_variant_cases"] += 1
+        check_table(col, "executor_target_with_debug_nodes_on", dict(ex.graph.compound_priority), cp, ids, present, rp)
+        B.reset_log()
+        res = probes.run_op("executor_debug", lambda: ex())
+        order = [e["node"] for e in B.snapshot() if e["kind"] == "FENTER"]
+        if res[0] == "ok":
+            ran = {ids.index(x) for x in order}
+            exp = [ids[i] for i in greedy_order(g, cp, ran)]
+            col.counters["order_checks"] += 1
+            if any(i in debug for i in ran):
+                col.counters["cp_debug_nodes_pulled_in"] += 1
+            if order != exp:
+                col.violation("C07", "order_not_the_unique_greedy_order(executor_target_with_debug_nodes_on)",
+                              {"observed": order, "predicted": exp, "debug": [ids[i] for i in sorted(debug)], "target": ids[t],
+                               "cp_spec": {ids[i]: cp[i] for i in sorted(ran)}}, rp)
+    finally:
+        cfg.RUN_DEBUG_NODES = old
 
 
 @job("cp")
